@@ -216,6 +216,15 @@ pub fn threads() -> usize {
 /// `job_done(stats, job_index)` after each job.
 static RUN_INDEX: AtomicUsize = AtomicUsize::new(0);
 
+/// For the API-level drivers (C12, C13): announce the operation / history about to run when
+/// `MLX_TRACE=cases`, so that the driver can name the one that kills the engine.
+pub fn trace_op(kind: &str, what: &str) {
+    static ON: std::sync::OnceLock<bool> = std::sync::OnceLock::new();
+    if *ON.get_or_init(|| std::env::var("MLX_TRACE").map(|v| v == "cases").unwrap_or(false)) {
+        eprintln!("{} {}", kind, what);
+    }
+}
+
 /// Crash localisation (driven by bin/check when an engine dies on a signal):
 ///   MLX_TRACE=jobs   print `RUN r JOB i` to stderr before each job
 ///   MLX_TRACE=cases  additionally print `CASE <int-rle> <frac-rle> <exp>` before each case
